@@ -81,7 +81,10 @@ fn is_subsequence(small: &[Value], big: &[Value]) -> bool {
 }
 
 pub fn run(ctx: &mut Ctx) {
-    let cs = collections();
+    let mut cs = collections();
+    if ctx.tier_thorough {
+        cs.extend(al::tuples(&elements(), 4));
+    }
     let ee = elem_exprs();
     let re = reduce_exprs();
     let is = inits();
